@@ -367,6 +367,9 @@ class _AbortEvent:
         if k >= len(w.rands) + 2:
             w.problems.append('effort did not end with its script: forced abort at wait %d' % k)
             return True
+        if w.abort_at is not None and k == w.abort_at and w.abort_mode == 'preset':
+            self.flag = True        # the flag was set just before this wait was entered
+            return self.flag
         if w.abort_at is not None and k == w.abort_at:
             # park: the harness thread now calls the real shutdown() (or sets the flag the way the
             # SIGINT handler does); `set()` wakes us
@@ -707,7 +710,9 @@ class AsyncWorld(BaseWorld):
             if delay is None or delay <= 0:
                 raise Hang('runaway effort')
             return
-        if self.abort_at is not None and k == self.abort_at and self.parked is not None \
+        if self.abort_at is not None and k == self.abort_at and self.abort_mode == 'preset':
+            self.client._reconnect_abort.set()      # the flag is set just before this wait is entered
+        elif self.abort_at is not None and k == self.abort_at and self.parked is not None \
                 and not self.parked.done():
             self.parked.set_result(k)
 
